@@ -805,7 +805,17 @@ func (sa *Application) DeallocateAsk(allocKey string) (*resources.Resource, erro
 	sa.Lock()
 	defer sa.Unlock()
 	if ask := sa.requests[allocKey]; ask != nil {
-		return sa.deallocateAsk(ask)
+		delta, err := sa.deallocateAsk(ask)
+		// the ask is pending again: like a new ask it takes an application that is Completing back to Running,
+		// otherwise the application completes with the ask outstanding
+		if err == nil && sa.IsCompleting() {
+			if err2 := sa.HandleApplicationEvent(RunApplication); err2 != nil {
+				log.Log(log.SchedApplication).Warn("Application state not changed while deallocating an ask",
+					zap.String("currentState", sa.CurrentState()),
+					zap.Error(err2))
+			}
+		}
+		return delta, err
 	}
 	return nil, fmt.Errorf("failed to locate ask with key %s", allocKey)
 }
